@@ -38,11 +38,14 @@ contract(f"{M}:BasicHeader.initialize_with_mib_request_and_rhl", props=["C20", "
          shapes={"mib": MIBS, "max_packet_lifetime": T.opt(T.float()), "rhl": T.int()},
          requires=["mib.itsGnDefaultPacketLifetime >= 0", "max_packet_lifetime is None or max_packet_lifetime >= 0"],
          ensures=dict(BH_POST, **{
-             "lifetime_not_exceeding_request": "lt_ms(result.lt) <= (max_packet_lifetime * 1000 if max_packet_lifetime is not None else mib.itsGnDefaultPacketLifetime * 1000)",
-             "lifetime_nonzero_from_50ms": "implies((max_packet_lifetime * 1000 if max_packet_lifetime is not None else mib.itsGnDefaultPacketLifetime * 1000) >= 50, lt_ms(result.lt) > 0)",
-             "lifetime_largest_representable": "forall(lambda m, b: implies(0 <= m <= 63 and 0 <= b <= 3 and m * LT_BASE_MS[b] <= (max_packet_lifetime * 1000 if max_packet_lifetime is not None else mib.itsGnDefaultPacketLifetime * 1000), m * LT_BASE_MS[b] <= lt_ms(result.lt)))"}),
+             "lifetime_is_best": "lt_ms(result.lt) == best_ms(requested_ms_int(max_packet_lifetime, mib.itsGnDefaultPacketLifetime))"}),
          float_as_real=True)
 contract(f"{M}:BasicHeader.initialize_with_mib_and_rhl", props=["C20", "C02"], mode="int", spec_module="spec_geonet",
          shapes={"mib": MIBS, "rhl": T.int()}, requires=["mib.itsGnDefaultPacketLifetime >= 0"],
-         ensures=dict(BH_POST, **{"lifetime_not_exceeding_default": "lt_ms(result.lt) <= mib.itsGnDefaultPacketLifetime * 1000",
-                                  "lifetime_nonzero": "implies(mib.itsGnDefaultPacketLifetime >= 1, lt_ms(result.lt) > 0)"}))
+         ensures=dict(BH_POST, **{"lifetime_is_best": "lt_ms(result.lt) == best_ms(mib.itsGnDefaultPacketLifetime * 1000)"}))
+
+contract("harness_spec:best_ms_value", props=["C20"], mode="int", spec_module="spec_geonet", shapes={"v": T.int(0)},
+         ensures={"never_exceeds": "result <= v", "nonzero_from_50": "implies(v >= 50, result > 0)",
+                  "representable": "exists_code(result)",
+                  "largest": "forall(lambda m, b: implies(0 <= m <= 63 and 0 <= b <= 3 and m * LT_BASE_MS[b] <= v, m * LT_BASE_MS[b] <= result))"},
+         canary={"identity": "result == v"})
